@@ -302,7 +302,10 @@ type candidate struct {
 func edits(full bool) (states, transitions int, cands []candidate) {
 	doms := []int{2, 6, 2, 7, 2, 1, 2}
 	if full {
-		doms = []int{len(elems), len(attrs), len(texts), len(places), 2, 2, len(xSpellings)}
+		// thorough: every element, attribute, text and place; spacing and the bare spelling of x stay at their quick
+		// values (10 368 templates would make the confirmation stage, which compiles every version and runs one
+		// development-mode process per round, take hours)
+		doms = []int{len(elems), len(attrs), len(texts), len(places), 2, 1, 2}
 	}
 	dir := filepath.Join(tgen.Scratch(), "edits")
 	if st, err := os.Stat("/dev/shm"); err == nil && st.IsDir() {
@@ -697,7 +700,12 @@ func confirm(cands []candidate) {
 	}
 	confirmed, rounds := 0, 0
 	classes := map[string]int{}
+	maxRounds := 60
 	for len(todo) > 0 {
+		if rounds == maxRounds {
+			run.Capped(fmt.Sprintf("confirmation stopped after %d rounds: %d lagging states were not executed", maxRounds, len(todo)))
+			break
+		}
 		rounds++
 		used := map[int]bool{}
 		var round, rest []candidate
